@@ -164,6 +164,7 @@ struct FamAgg {
     progress_total: u64,
     max_threads: u64,
     wall_s: f64,
+    cover: BTreeMap<String, BTreeSet<String>>,
 }
 
 fn absorb(agg: &mut FamAgg, v: &Value, keep_hash_below: u64) {
@@ -192,6 +193,13 @@ fn absorb(agg: &mut FamAgg, v: &Value, keep_hash_below: u64) {
     agg.steps += v["steps"].as_u64().unwrap_or(0);
     agg.switches += v["switches"].as_u64().unwrap_or(0);
     agg.max_threads = agg.max_threads.max(v["threads"].as_u64().unwrap_or(0));
+    if let Some(c) = v["cover"].as_array() {
+        for k in c {
+            if let Some((dim, val)) = k.as_str().and_then(|s| s.split_once(':')) {
+                agg.cover.entry(dim.to_string()).or_default().insert(val.to_string());
+            }
+        }
+    }
     if let Some(p) = v["progress"].as_array() {
         agg.progress_done += p[0].as_u64().unwrap_or(0);
         agg.progress_total += p[1].as_u64().unwrap_or(0);
@@ -813,6 +821,7 @@ fn write_evidence(
             "progress_fraction": if a.progress_total > 0 { Some(a.progress_done as f64 / a.progress_total as f64) } else { None },
             "violating_runs": a.violations.len(),
             "wall_s": a.wall_s,
+            "distinct_values_covered": a.cover.iter().map(|(k, v)| (k.clone(), v.len())).collect::<BTreeMap<String, usize>>(),
         }));
     }
     let zero_probes: Vec<&str> = meta
